@@ -5,7 +5,7 @@
    That distinct preimages hash to distinct scalars is NOT provable (it is collision resistance); distinctness of keys
    is stated GIVEN distinct scalars modulo l.
    This file contains only statements (pinned by Check), `exact` proofs and assumption audits. *)
-From MRS Require Import Proofs.SubaddrProofs.
+From MRS Require Import Proofs.SubaddrProofs Proofs.EdInstProofs.
 Open Scope Z_scope.
 
 (* m(i,j) = Hs("SubAddr\0" || v || le32 i || le32 j); the preimage is 8 + 32 + 4 + 4 bytes *)
@@ -18,6 +18,13 @@ Proof.
   intros Hs v i j. split; [reflexivity|split; [reflexivity|split; [|reflexivity]]].
   exact (proj2 (proj2 (subaddr_preimage_layout v i j))).
 Qed.
+
+(* with the Keccak instance: m is the digest read little-endian and reduced modulo l *)
+Theorem C11_scalar_keccak : forall v i j,
+  get_secret_scalar hs_keccak v (i, j) =
+    Z.of_N (le2n (Keccak.keccak256 (subaddr_prefix ++ sk_to_bytes v ++ le32 i ++ le32 j))) mod ell /\
+  0 <= get_secret_scalar hs_keccak v (i, j) < ell.
+Proof. intros v i j. split; [exact (hs_keccak_spec _)|exact (hs_keccak_range _)]. Qed.
 
 (* secret side: s' = s + m, v' = v * s' (mod l) *)
 Theorem C11_secret : forall (Hs : hs_fun) v s i,
@@ -158,6 +165,10 @@ Check C11_address : forall (E : EdOps) (Hs : hs_fun) v S i net,
   (forall vw sp, get_public_keys Hs v S i = Ok (vw, sp) ->
      get_subaddress Hs v S i net =
        Ok (mk_sub_address (match net with Some n => n | None => Mainnet end) SubAddress sp vw)).
+Check C11_scalar_keccak : forall v i j,
+  get_secret_scalar hs_keccak v (i, j) =
+    Z.of_N (le2n (Keccak.keccak256 (subaddr_prefix ++ sk_to_bytes v ++ le32 i ++ le32 j))) mod ell /\
+  0 <= get_secret_scalar hs_keccak v (i, j) < ell.
 
 Print Assumptions C11_scalar.
 Print Assumptions C11_secret.
@@ -171,3 +182,4 @@ Print Assumptions C11_preimage_distinct.
 Print Assumptions C11_distinct_partial.
 Print Assumptions C11_distinct_from_primary_partial.
 Print Assumptions C11_address.
+Print Assumptions C11_scalar_keccak.
